@@ -34,7 +34,8 @@ type c1Cell struct {
 type c1Row struct{ before, after []c1Cell }
 
 type c1Change struct {
-	kind  int // kWrite / kUpdate / kDelete
+	kind  int    // kWrite / kUpdate / kDelete, or kQuery for a statement logged as SQL text
+	sql   string // kQuery only
 	table int
 	ts    uint32
 	rows  []c1Row
@@ -52,6 +53,23 @@ var c1Tables = [][]c1Col{
 	{{"s", replication.TypeString, uint16(replication.TypeString)<<8 | 8, false}, {"when", replication.TypeDateTime2, 0, false}},
 	{{"a", replication.TypeVarchar, 40, false}, {"b", replication.TypeVarchar, 300, false}},
 	{{"c", replication.TypeBlob, 2, false}, {"d", replication.TypeVarchar, 20, false}},
+	// wide table (axis 2): more than 8 columns (multi-byte bitmaps, partial images whose NULL bitmap is
+	// shorter than the presence bitmap) and a VARCHAR whose maximum length is exactly 255
+	// (BIT(8) cells are raw bytes: no digit-count forks, so ten columns stay cheap)
+	{{"id", replication.TypeTiny, 0, true}, {"w1", replication.TypeBit, 1 << 8, false}, {"w2", replication.TypeBit, 1 << 8, false},
+		{"w3", replication.TypeBit, 1 << 8, false}, {"w4", replication.TypeBit, 1 << 8, false}, {"w5", replication.TypeBit, 1 << 8, false},
+		{"w6", replication.TypeBit, 1 << 8, false}, {"w7", replication.TypeBit, 1 << 8, false}, {"w8", replication.TypeBit, 1 << 8, false},
+		{"name", replication.TypeVarchar, 255, false}},
+}
+
+// c1WidePres: presence patterns of the wide table (bit c = column c present).
+var c1WidePres = []int{0x001, 0x0ff, 0x3ff, 0x201, 0x3fe, 0x300}
+
+// c1Bits writes an n-bit bitmap, (n+7)/8 bytes, little-endian.
+func c1Bits(w *replication.VHWriter, v, n int) {
+	for i := 0; i < (n+7)/8; i++ {
+		w.U8(byte(v >> uint(8*i)))
+	}
 }
 
 var c1FreeLen = false
@@ -140,9 +158,9 @@ func c1Image(w *replication.VHWriter, cols []c1Col, pres int, free bool) []c1Cel
 	nulls := 0
 	if free {
 		// none, all, alternating
-		nulls = []int{0, (1 << uint(np)) - 1, 0x5 & ((1 << uint(np)) - 1)}[vhChoose(3)]
+		nulls = []int{0, (1 << uint(np)) - 1, 0x155 & ((1 << uint(np)) - 1)}[vhChoose(3)]
 	}
-	w.U8(byte(nulls)) // np <= 3: one byte
+	c1Bits(w, nulls, np)
 	cells := make([]c1Cell, len(cols))
 	k := 0
 	for c := range cols {
@@ -162,10 +180,11 @@ func c1Image(w *replication.VHWriter, cols []c1Col, pres int, free bool) []c1Cel
 
 // VH_C01_History: cfg bit0 CRC32, bit1 rows v2, bit2 6-byte table ids, bit3 GTID events;
 // axis 0: cell axis (one change, free column tuple / presence / NULL pattern),
-// axis 1: structure axis (1-2 transactions x 1-2 statements x 2 tables x 1-2 rows events).
+// axis 1: structure axis (1-2 transactions x 1-2 statements x 2 tables x 1-2 rows events),
+// axis 2: wide axis (one change on the 10-column table, partial images from c1WidePres, NULL patterns).
 func VH_C01_History(cfg, axis int) {
 	crcOn, v2, w6, gtid := cfg&1 != 0, cfg&2 != 0, cfg&4 != 0, cfg&8 != 0
-	c1FreeLen = axis == 0
+	c1FreeLen = axis == 0 || axis == 2
 	width := 4
 	if w6 {
 		width = 6
@@ -248,9 +267,12 @@ func VH_C01_History(cfg, axis int) {
 		}
 		for st := 0; st < nst; st++ {
 			ti := 0
-			if axis == 0 {
+			switch axis {
+			case 0:
 				ti = vhChoose(3)
-			} else {
+			case 2:
+				ti = 5
+			default:
 				ti = 3 + vhChoose(2)
 			}
 			cols := c1Tables[ti]
@@ -281,7 +303,9 @@ func VH_C01_History(cfg, axis int) {
 			}
 			tm.LenEnc(uint64(len(meta.Bytes())))
 			tm.Raw(meta.Bytes())
-			tm.U8(0xff) // nullability
+			for i := 0; i < (len(cols)+7)/8; i++ {
+				tm.U8(0xff) // nullability
+			}
 			emit(19, vhU32(), tm.Bytes(), true)
 			nev := 1
 			if axis == 1 {
@@ -311,11 +335,21 @@ func VH_C01_History(cfg, axis int) {
 						freeD = kind == kWrite
 					}
 				}
+				if axis == 2 {
+					if kind != kWrite {
+						presI = c1WidePres[vhChoose(len(c1WidePres))]
+						freeI = true
+					}
+					if kind != kDelete {
+						presD = c1WidePres[vhChoose(len(c1WidePres))]
+						freeD = kind == kWrite
+					}
+				}
 				if kind != kWrite {
-					r.U8(byte(presI))
+					c1Bits(r, presI, len(cols))
 				}
 				if kind != kDelete {
-					r.U8(byte(presD))
+					c1Bits(r, presD, len(cols))
 				}
 				nrows := 1
 				if axis == 1 {
@@ -338,11 +372,29 @@ func VH_C01_History(cfg, axis int) {
 			}
 		}
 		tx.commitTS = vhU32()
-		x := &replication.VHWriter{}
-		x.U64(uint64(t))
-		tx.next = int64(emit(16, tx.commitTS, x.Bytes(), true))
+		tail := 0
+		if axis == 2 {
+			tail = vhChoose(3) // 0: XID; 1: COMMIT query, then a DDL; 2: XID, then a DDL
+		}
+		if tail == 1 {
+			// closed by a COMMIT query event (non-transactional engines) instead of XID
+			tx.next = int64(query("COMMIT", tx.commitTS))
+		} else {
+			x := &replication.VHWriter{}
+			x.U64(uint64(t))
+			tx.next = int64(emit(16, tx.commitTS, x.Bytes(), true))
+		}
 		boundary = tx.next
 		txs = append(txs, tx)
+		if tail != 0 {
+			// a statement logged outside BEGIN..COMMIT is a transaction of its own
+			ddl := c1Tx{now: boundary, commitTS: vhU32()}
+			sql := "create table x" + string(rune('0'+t)) + " (a int)"
+			ddl.next = int64(query(sql, ddl.commitTS))
+			ddl.changes = []c1Change{{kind: kQuery, sql: sql, ts: ddl.commitTS}}
+			boundary = ddl.next
+			txs = append(txs, ddl)
+		}
 	}
 
 	// ---- run the real code: readBinlogEvent per packet, then parseEvents ----
@@ -369,6 +421,12 @@ func VH_C01_History(cfg, axis int) {
 		vhAssert(len(t.Events) == len(want.changes), "ordered changes of the transaction")
 		for i, wc := range want.changes {
 			ev := t.Events[i]
+			if wc.kind == kQuery {
+				vhAssert(ev.Type == StatementCreate, "change kind")
+				vhAssert(ev.Query.SQL == wc.sql, "SQL text")
+				vhAssert(ev.Timestamp == int64(wc.ts), "event timestamp")
+				continue
+			}
 			wt := map[int]StatementType{kWrite: StatementInsert, kUpdate: StatementUpdate, kDelete: StatementDelete}[wc.kind]
 			vhAssert(ev.Type == wt, "change kind")
 			vhAssert(ev.Table.DbName == "db" && ev.Table.TableName == "t"+string(rune('0'+wc.table)), "table")
